@@ -136,6 +136,13 @@ def run_shard(spec, tier, seed):
             res.evaluations += 1
             sol = scen.typed_solution(out)
             check_solution(res, year, sol, f'{year} {fam} {p.key}', realwork.replay_of(p, 'base', spec))
+            # N.C. page 2 against what the filer designates (the four amounts of lines 29-32 are the filer's own answers: a total that
+            # leaves one out still balances against itself, so the refund is compared with the overpayment less the answers)
+            rc_ = float((getattr(p, 'ncv', None) or {}).get('refund_contrib', 0) or 0)
+            if rc_ > 0 and 'nc_d-400.34' in sol and 'nc_d-400.28' in sol and sol['nc_d-400.28'] - 4 * rc_ >= 1:
+                res.count('nc_designations_checked')
+                if abs(sol['nc_d-400.34'] + 4 * rc_ - sol['nc_d-400.28']) > 0.51:
+                    res.violation(f'C15|{year}|nc-designations|nc_d-400.34', f'{year} {fam} {p.key}: N.C. refund {sol["nc_d-400.34"]} + the four designated amounts of {rc_} each != overpayment {sol["nc_d-400.28"]} (line 33 = {sol.get("nc_d-400.33")})', realwork.replay_of(p, 'base', spec))
             if len(res.samples) < 1:
                 res.sample({'persona': p.describe(), 'lines': {k: sol[k] for k in ('1040.24', '1040.33', '1040.34', '1040.35a', '1040.36', '1040.37') if k in sol}})
             # the same return with the withholding moved so that payments and tax differ by less than a dollar, a cent, nothing,
